@@ -88,6 +88,12 @@ fn observe(text: &str, content_first: bool) -> Result<Vec<(String, String, bool)
                 // the same value through the other access paths
                 let via_get = root.get_attribute(&a.name());
                 if via_get != value && qn == a.name() {
+                    // DOM names are local names (recorded under C13, pinned by tests): with a and p:a on one element,
+                    // get_attribute("a") finds whichever comes first
+                    let twin = attrs.iter().any(|b| b.name() == a.name() && format!("{}", xml_dom::AsNode::as_node(&b)).split('=').next().unwrap_or("") != qn);
+                    if twin {
+                        return Err(format!("lookup by local name: get_attribute({:?}) = {:?} but the value of {} is {:?}", a.name(), via_get, qn, value));
+                    }
                     return Err(format!("get_attribute({:?}) = {:?} but Attr::value = {:?}", a.name(), via_get, value));
                 }
                 v.push((qn, value, a.specified()));
@@ -195,7 +201,7 @@ fn compare(d: &ADoc, label: &str, feat: &str, sink: &mut Sink) {
             });
         }
         Err(m) => {
-            let kind = if m.starts_with("PANIC") { format!("panic[{}]", panic_site(&m)) } else if m.starts_with("not accepted") { "rejected".to_string() } else if m.starts_with("attributes read first") { "value-depends-on-read-order".to_string() } else { "inconsistent-accessors".to_string() };
+            let kind = if m.starts_with("PANIC") { format!("panic[{}]", panic_site(&m)) } else if m.starts_with("not accepted") { "rejected".to_string() } else if m.starts_with("attributes read first") { "value-depends-on-read-order".to_string() } else if m.starts_with("lookup by local name") { "lookup-by-local-name".to_string() } else { "inconsistent-accessors".to_string() };
             sink.finding(Finding { sig: format!("{}/{}/{}", kind, label, feat), what: "attribute access fails".into(), case: text, expected: format!("{:?}", want), observed: m });
         }
     }
@@ -312,7 +318,7 @@ fn default_cases() -> Vec<(String, ADoc)> {
     for (kname, k) in &kinds {
         for ty in ["CDATA", "NMTOKENS", "ID"] {
             for written in [false, true] {
-                for placement in ["single", "second-attlist", "repeated-first-wins", "repeated-in-one-attlist", "other-element", "prefixed-name", "two-attributes", "on-child"] {
+                for placement in ["single", "second-attlist", "repeated-first-wins", "repeated-in-one-attlist", "other-element", "prefixed-name", "two-attributes", "on-child", "same-local-name-other-prefix", "same-local-name-other-prefix-written"] {
                     let def = |name: &str, dflt: ADefault| AAttDef { name: name.to_string(), ty: ty.to_string(), default: dflt };
                     let aname = if placement == "prefixed-name" { "p:a" } else { "a" };
                     let mut decls: Vec<ADecl> = vec![];
@@ -335,12 +341,19 @@ fn default_cases() -> Vec<(String, ADoc)> {
                             decls.push(ADecl::AttList { elem: "x".into(), defs: vec![def("a", ADefault::Value { fixed: false, value: t("other") })] });
                             decls.push(ADecl::AttList { elem: "r".into(), defs: vec![def("a", k.clone())] });
                         }
+                        // a and p:a are two attributes: the default of one is not displaced by the other
+                        "same-local-name-other-prefix" | "same-local-name-other-prefix-written" => {
+                            decls.push(ADecl::AttList { elem: "r".into(), defs: vec![def("a", k.clone()), def("p:a", ADefault::Value { fixed: false, value: t("pv") })] })
+                        }
                         "two-attributes" => decls.push(ADecl::AttList { elem: "r".into(), defs: vec![def("a", k.clone()), def("b", ADefault::Value { fixed: false, value: t("bv") })] }),
                         _ => decls.push(ADecl::AttList { elem: "c".into(), defs: vec![def("a", k.clone())] }),
                     }
                     let mut root = el("r", vec![], vec![e("c", vec![], vec![])]);
-                    if placement == "prefixed-name" {
+                    if placement == "prefixed-name" || placement.starts_with("same-local-name") {
                         root.attrs.push(at("xmlns:p", "u"));
+                    }
+                    if placement == "same-local-name-other-prefix-written" {
+                        root.attrs.push(at("p:a", "pw"));
                     }
                     if written {
                         let target = if placement == "on-child" {
